@@ -377,15 +377,16 @@ Qed.
 
 (* Arg(): the lowest token is replaced in a copy *)
 Lemma arg_spec s value :
-  subj_ok s -> nulfree value -> lenN value < LIM -> slen s + lenN value * slen s + 1 <= LIM ->
+  subj_ok s -> nulfree (abs s) -> nulfree value -> lenN value < LIM -> slen s + lenN value * slen s + 1 <= LIM ->
   inv (arg1 s value) /\ abs (arg1 s value) = l0_arg (abs s) value.
 Proof.
-  intros Sb F Bv B. unfold StrModel.arg1, l0_arg.
+  intros Sb Fs F Bv B. unfold StrModel.arg1, l0_arg.
   destruct (copy_spec s Sb) as (Ic & Ac).
   destruct (0 <=? arg_scan (S (length (abs s))) (abs s) (-1))%Z; [|split; trivial].
   set (tok := 37 :: dec_of_Z (arg_scan (S (length (abs s))) (abs s) (-1))).
   assert (Lc : slen (ctor_copy (src_of s)) = slen s) by (rewrite <- (lenN_abs _ Ic), Ac; apply (lenN_abs s (proj1 Sb))).
-  pose proof (replace_s_spec (ctor_copy (src_of s)) (Some (src_lit tok)) (Some (src_lit value)) NOLIMIT 0 Ic) as R.
+  assert (Fc : nulfree (abs (ctor_copy (src_of s)))) by now rewrite Ac.
+  pose proof (replace_s_spec (ctor_copy (src_of s)) (Some (src_lit tok)) (Some (src_lit value)) NOLIMIT 0 Ic Fc) as R.
   cbn zeta in R. cbn [StrModel.osrc] in R. rewrite !src_bytes_lit, Ac in R.
   destruct R as (R1 & R2 & _).
   - split; [apply src_ok_lit|exact Bv].
